@@ -18,11 +18,11 @@ from .common import declare_cells, declare_edges, nested, zsum
 OPS_1D = [
     # (name, expected) expected: "ok" | exception name | "maybe" (depends on the symbolic state, decided in the oracle)
     "fill", "fill_n", "fill_n_empty", "iadd_same", "isub_le", "imul_pos", "idiv_pos", "merge2", "set_float", "normalize_inplace",
-    "iadd_diffbins", "isub_diffbins", "iadd_scalar", "iadd_list", "iadd_none", "isub_any", "imul_any", "imul_hist", "filln_wshape_f16", "filln_wshape_f32", "idiv_hist", "imul_list", "idiv_zero_list",
+    "iadd_diffbins", "isub_diffbins", "iadd_scalar", "iadd_list", "iadd_none", "isub_any", "imul_any", "imul_hist", "filln_wshape_f16", "filln_wshape_f32", "set_err_shape", "idiv_any", "idiv_hist", "imul_list", "idiv_zero_list",
     "filln_wshape", "filln_w2d", "fill_badweight", "fill_nonscalar", "dtype_str", "dtype_complex", "dtype_small", "merge_frac", "merge_axis", "getitem_range",
     "set_freq_shape", "set_freq_negative", "set_err_negative", "find_bin_array",
 ]
-OPS_2D = ["fill", "fill_n", "iadd_same", "imul_pos", "merge2", "iadd_diffbins", "isub_diffbins", "iadd_1d", "iadd_scalar", "isub_any", "imul_any", "filln_shape1d", "filln_cols3", "fill_wrong_len",
+OPS_2D = ["set_err_shape", "idiv_any", "fill", "fill_n", "iadd_same", "imul_pos", "merge2", "iadd_diffbins", "isub_diffbins", "iadd_1d", "iadd_scalar", "isub_any", "imul_any", "filln_shape1d", "filln_cols3", "fill_wrong_len",
           "fill_scalar", "dtype_str", "merge_axis", "projection_bad", "getitem_toomany", "partial_bad_axis", "set_freq_shape"]
 
 
@@ -136,6 +136,8 @@ class C18Step1D(_Base):
             if p["subject"] == "1d-adaptive":
                 cx.assume(x["v"] >= x["t"] - 2, x["v"] < x["t"] + 4)
             cx.assume(x["c"] >= -2, x["c"] <= 2)
+            if "idiv_any" in p["ops"]:
+                cx.assume(cx.t(x["c"]) != 0)   # division by zero is not one of the statement's invalid calls
             cx.assume(*[z3.And(cx.t(t) >= -100, cx.t(t) <= 100) for t in x["e"]])
             if "normalize_inplace" in p["ops"]:
                 cx.assume(zsum(cx.t(i) for i in x["f"]) > 0)
@@ -231,7 +233,9 @@ class C18Step1D(_Base):
             "merge_axis": (("ValueError", "TypeError", "IndexError"), lambda: h.merge_bins(2, axis=3, inplace=True), None),
             "getitem_range": ("IndexError", lambda: h[7], None),
             "set_freq_shape": ("ValueError", setattr_("frequencies", np.asarray([1, 2, 3])), None),
+            "set_err_shape": ("ValueError", setattr_("errors2", np.asarray([1, 2, 3])), None),
             "set_freq_negative": ("ValueError", setattr_("frequencies", np.asarray([1, -2])), None),
+            "idiv_any": ("maybe", idiv(c), None),
             "set_err_negative": ("ValueError", setattr_("errors2", np.asarray([1, -2])), None),
             "find_bin_array": ("ValueError", lambda: h.find_bin([v, v]), None),
         }
@@ -271,6 +275,11 @@ class C18Step1D(_Base):
                 neg = z3.And(c < 0, z3.Or([v > 0 for v in f]))
                 yield f"negative_factor_refused{tag}", z3.Implies(neg, z3.BoolVal(st["outcome"] != "ok"))
                 yield f"harmless_factor_accepted{tag}", z3.Implies(c > 0, z3.BoolVal(st["outcome"] == "ok"))
+            if st["op"] == "idiv_any":
+                c = cx.t(x["c"])
+                neg = z3.And(c < 0, z3.Or([v > 0 for v in f]))
+                yield f"negative_divisor_refused{tag}", z3.Implies(neg, z3.BoolVal(st["outcome"] != "ok"))
+                yield f"harmless_divisor_accepted{tag}", z3.Implies(c > 0, z3.BoolVal(st["outcome"] == "ok"))
             if st["op"] == "dtype_small" and p["subject"] == "1d-int":
                 toobig = z3.Or([v > 32767 for v in f] + [cx.t(v) > 32767 for v in x["q"]])
                 yield f"lossy_dtype_refused{tag}", z3.BoolVal(st["outcome"] != "ok") == toobig
@@ -290,6 +299,8 @@ class C18Step2D(_Base):
              "v": cx.pyfloat("v"), "w": cx.pyint("w", 0, 3), "c": cx.pyfloat("c"), "e": [declare_edges(cx, f"e{k}_", 2) for k in range(2)]}
         if cx.sym:
             cx.assume(x["c"] >= -2, x["c"] <= 2)
+            if "idiv_any" in p["ops"]:
+                cx.assume(cx.t(x["c"]) != 0)
             cx.assume(*[z3.And(cx.t(t) >= -100, cx.t(t) <= 100) for k in range(2) for t in x["e"][k]])
             cx.assume(x["gm"] <= x["m"])
         return x
@@ -322,6 +333,12 @@ class C18Step2D(_Base):
                 hh *= val
             return run
 
+        def idiv(val):
+            def run():
+                hh = h
+                hh /= val
+            return run
+
         def setattr_(name, val):
             def run():
                 setattr(h, name, val)
@@ -349,6 +366,8 @@ class C18Step2D(_Base):
             "getitem_toomany": ("IndexError", lambda: h[0, 0, 0], None),
             "partial_bad_axis": (("ValueError", "TypeError"), lambda: h.partial_normalize(3, inplace=True), None),
             "set_freq_shape": ("ValueError", setattr_("frequencies", np.asarray([1, 2, 3])), None),
+            "set_err_shape": ("ValueError", setattr_("errors2", np.asarray([[1, 2, 3], [4, 5, 6]])), None),
+            "idiv_any": ("maybe", idiv(c), None),
         }
         steps = []
         for op in p["ops"]:
